@@ -294,12 +294,15 @@ Record winfo := mkW {
   w_aft : bool;         (* called after a Terminate had returned *)
   w_due : option N      (* time from which the call is known to be answerable *)
 }.
-Inductive oop := OpNotify | OpPlain | OpTerm | OpWait (w : winfo).
+(* OpNotify nf: a notifying call; at least nf notifications were effective when it was called *)
+Inductive oop := OpNotify (nf : nat) | OpPlain | OpTerm | OpWait (w : winfo).
 
 Record mstate := mkM {
   m_lo : nat;       (* notifying ops that returned before any Terminate was called *)
   m_hi : nat;       (* notifying ops called *)
-  m_maxk : nat;     (* largest notification count decoded from a returned index *)
+  m_maxk : nat;     (* largest notification count known to have been reached: decoded from a
+                       returned index, or one more than the count at the call of a notifying
+                       op that returned before any Terminate was called *)
   m_tcall : bool;   (* a Terminate has been called *)
   m_tret : bool;    (* a Terminate has returned *)
   m_open : list (nat * oop)
@@ -398,7 +401,7 @@ Definition mon_event (c : mcfg) (m : mstate) (e : event) : mres :=
           let m' :=
             match o with
             | ONotify | OUnlock =>
-                mkM (m_lo m) (S (m_hi m)) (m_maxk m) (m_tcall m) (m_tret m) ((t, OpNotify) :: m_open m)
+                mkM (m_lo m) (S (m_hi m)) (m_maxk m) (m_tcall m) (m_tret m) ((t, OpNotify (m_floor m)) :: m_open m)
             | OUnlockNN => set_open m ((t, OpPlain) :: m_open m)
             | OTerminate =>
                 mkM (m_lo m) (m_hi m) (m_maxk m) true (m_tret m) ((t, OpTerm) :: m_open m)
@@ -409,8 +412,9 @@ Definition mon_event (c : mcfg) (m : mstate) (e : event) : mres :=
       end
   | ERet t r tm =>
       match aget (m_open m) t, r with
-      | Some OpNotify, RUnit =>
-          MOk (refresh c tm (mkM (if m_tcall m then m_lo m else S (m_lo m)) (m_hi m) (m_maxk m)
+      | Some (OpNotify nf), RUnit =>
+          MOk (refresh c tm (mkM (if m_tcall m then m_lo m else S (m_lo m)) (m_hi m)
+                                 (if m_tcall m then m_maxk m else Nat.max (m_maxk m) (S nf))
                                  (m_tcall m) (m_tret m) (adel (m_open m) t)))
       | Some OpPlain, RUnit => MOk (refresh c tm (set_open m (adel (m_open m) t)))
       | Some OpTerm, RUnit =>
